@@ -29,6 +29,8 @@ pub enum RegKind {
     NoContent,
     /// closure with two required parameters
     TwoParams,
+    /// `resume_from` that is neither head, tail nor an id
+    BadResume,
 }
 
 #[derive(Clone, Debug, Serialize, Deserialize)]
@@ -51,7 +53,7 @@ pub struct C16Case {
 
 pub fn strategy() -> BoxedStrategy<C16Case> {
     let ev = prop_oneof![
-        6 => (0u8..2, 0u8..2, prop_oneof![6 => Just(RegKind::Valid), 2 => Just(RegKind::SameAsActive), 1 => Just(RegKind::BadArity), 1 => Just(RegKind::ParseError), 1 => Just(RegKind::ConfigError), 1 => Just(RegKind::NoContent), 1 => Just(RegKind::TwoParams)], prop_oneof![3 => Just(false), 1 => Just(true)])
+        6 => (0u8..2, 0u8..2, prop_oneof![6 => Just(RegKind::Valid), 2 => Just(RegKind::SameAsActive), 1 => Just(RegKind::BadArity), 1 => Just(RegKind::ParseError), 1 => Just(RegKind::ConfigError), 1 => Just(RegKind::NoContent), 1 => Just(RegKind::TwoParams), 1 => Just(RegKind::BadResume)], prop_oneof![3 => Just(false), 1 => Just(true)])
             .prop_map(|(name, ctx, kind, resume_head)| Ev::Reg { name, ctx, kind, resume_head }),
         2 => (0u8..2, 0u8..2).prop_map(|(name, ctx)| Ev::Unreg { name, ctx }),
         2 => (0u8..2, 0u8..2).prop_map(|(name, ctx)| Ev::Boom { name, ctx }),
@@ -93,6 +95,7 @@ fn script(name: &str, version: usize, kind: &RegKind, resume_head: bool) -> Stri
         RegKind::ConfigError => "error make {msg: \"config\"}\n{run: {|frame| 1}}".to_string(),
         RegKind::NoContent => String::new(),
         RegKind::TwoParams => "{run: {|frame, state| 42}}".to_string(),
+        RegKind::BadResume => "{resume_from: \"yesterday\", run: {|frame| 42}}".to_string(),
     }
 }
 
